@@ -8,6 +8,10 @@ macro_rules! cfg {
 }
 
 fn main() {
+    vengine::on_worker_stack(real_main);
+}
+
+fn real_main() {
     let mut run = Run::from_args("C20", "c20");
     // quick binary: every digit type with N = 1 and a multi-digit width; 8-, 16- and 24-bit types are the
     // ones whose RNG word space is enumerated completely
